@@ -345,6 +345,35 @@ def _ops_of(recipe: Dict[str, Any]) -> List[Any]:
     return [["call", recipe["kwargs"]]]
 
 
+MUTATIONS = ["in_sort", "in_reverse", "in_pop", "in_remove_first", "in_clear", "out_reverse", "out_clear",
+             "result_clear", "kwargs_clear"]
+
+
+def mutate_returned(action, kind: str, last: Dict[str, Any]) -> None:
+    """what a caller may legitimately do with objects the public API handed out"""
+    if kind.startswith("in_") or kind.startswith("out_"):
+        lst = action.in_arguments() if kind.startswith("in_") else action.out_arguments()
+        what = kind.split("_", 1)[1]
+        if what == "sort":
+            lst.sort(key=lambda a: a.name, reverse=True)
+        elif what == "reverse":
+            lst.reverse()
+        elif what == "pop" and lst:
+            lst.pop()
+        elif what == "remove_first" and lst:
+            lst.remove(lst[0])
+        elif what == "clear":
+            lst.clear()
+    elif kind == "result_clear":
+        r = last.get("result")
+        if isinstance(r, dict):
+            r.clear()
+    elif kind == "kwargs_clear":
+        k = last.get("kwargs")
+        if isinstance(k, dict):
+            k.clear()
+
+
 def run_recipe(ctx: Ctx, recipe: Dict[str, Any], cid: str) -> Case:
     decl = recipe["decl"]
     from xml.sax.saxutils import quoteattr
@@ -354,10 +383,11 @@ def run_recipe(ctx: Ctx, recipe: Dict[str, Any], cid: str) -> Case:
     lines = decl_lines(decl)
     ops = _ops_of(recipe)
     tags = {f"strict:{decl['strict']}", f"nin:{sum(1 for a in decl['args'] if a['dir'] == 'in')}",
-            f"calls:{min(sum(1 for o in ops if o[0] == 'call'), 6)}"}
+            f"calls:{min(sum(1 for o in ops if o[0] == 'call'), 8)}"}
     sigs: List[str] = []
     prev_sent: Optional[bool] = None
     prev_kw = None
+    last: Dict[str, Any] = {}
     for op in ops:
         if op[0] == "reinit":
             # the device is re-initialised in place from a description fetched at another location
@@ -369,17 +399,25 @@ def run_recipe(ctx: Ctx, recipe: Dict[str, Any], cid: str) -> Case:
             if decl2["control_url"] != decl["control_url"]:
                 tags.add("op:reinit-control-url-differs")
             continue
+        if op[0] == "mutate":
+            # the caller mutates what the public accessors RETURNED (never the action's own attributes):
+            # the request stays a function of the action as declared
+            mutate_returned(action, op[1], last)
+            lines.append(f"mutate {op[1]}")
+            tags.add("op:mutate:" + op[1])
+            continue
         kwargs = {n: val_unjson(j) for n, j in op[1]}
+        last["kwargs"] = kwargs
         n0 = len(req.log)
         exc: Optional[BaseException] = None
         via = op[2] if len(op) > 2 else "action"
         try:
             if via == "service_obj":      # UpnpService.async_call_action(action object, **kwargs)
-                run(action.service.async_call_action(action, **kwargs))
+                last["result"] = run(action.service.async_call_action(action, **kwargs))
             elif via == "service_name":   # UpnpService.async_call_action("Name", **kwargs)
-                run(action.service.async_call_action(action.name, **kwargs))
+                last["result"] = run(action.service.async_call_action(action.name, **kwargs))
             else:
-                run(action.async_call(**kwargs))
+                last["result"] = run(action.async_call(**kwargs))
         except Exception as e:  # noqa: BLE001 - the exception is the observation
             exc = e
         tags.add("via:" + via)
@@ -790,6 +828,12 @@ def rand_case(rng, allow_known: bool = True) -> Dict[str, Any]:
             if rng.random() < 0.15:
                 ops.append(rand_reinit(rng, decl))
             ops.append(["call", rand_kwargs(rng, decl, valid_bias=False if rng.random() < 0.3 else None)])
+    if rng.random() < 0.3:
+        # the caller mutates a returned list / dict somewhere in the history, then calls again
+        kw = rand_kwargs(rng, decl)
+        pos = rng.randrange(len(ops) + 1)
+        ops[pos:pos] = [["call", kw], ["mutate", rng.choice(MUTATIONS)]] if rng.random() < 0.5 else [["mutate", rng.choice(MUTATIONS)]]
+        ops += [["call", kw], ["call", rand_kwargs(rng, decl, valid_bias=False)]]
     for op in ops:
         if op[0] == "call" and rng.random() < 0.4:
             op.append(rng.choice(["service_obj", "service_name"]))
@@ -816,6 +860,13 @@ CORPUS = [
     {"decl": dict(_decl1("ui2"), action="Swap", args=[{"name": "X", "dir": "out", "type": "string"},
                                                       {"name": "X", "dir": "in", "type": "ui2", "range": {"min": "0", "max": "100"}}]),
      "ops": [["call", [["X", ["i", "5"]]]], ["call", [["X", ["i", "101"]]]], ["call", [["X", ["s", "5"]]]]]},
+    # the caller mutates lists the accessors returned; later requests keep the declared arguments and order
+    {"decl": dict(_decl1("i4"), args=[{"name": "B", "dir": "in", "type": "i4"}, {"name": "A", "dir": "in", "type": "string"},
+                                      {"name": "R", "dir": "out", "type": "i4"}]),
+     "ops": [["call", [["A", ["s", "x"]], ["B", ["i", "1"]]]], ["mutate", "in_sort"], ["call", [["A", ["s", "x"]], ["B", ["i", "1"]]]],
+             ["mutate", "in_clear"], ["call", [["A", ["s", "x"]], ["B", ["i", "1"]]]], ["call", [["A", ["s", "x"]]]],
+             ["mutate", "in_pop"], ["mutate", "out_clear"], ["mutate", "result_clear"], ["mutate", "kwargs_clear"],
+             ["call", [["B", ["i", "2"]], ["A", ["s", "y"]]]]]},
     # histories on one object
     {"decl": _decl1("ui2", range={"min": "0", "max": "100"}),
      "ops": [["call", [["X", ["i", "101"]]]], ["call", [["X", ["i", "101"]]]], ["call", [["X", ["i", "5"]]]],
